@@ -31,9 +31,20 @@ def make_core(prop):
 
 LEVEL = {}
 CHECKS = {}
-for p in ("C02", "C05", "C08", "C09", "C16"):
+for p in ("C02", "C05", "C08", "C16"):
     CHECKS[p] = make_core(p)
     LEVEL[p] = "model_checking"
+
+
+def check_c09(out, tier, seed):
+    """core histories plus the identifier catalogues (collisions across record types,
+    integer-looking names, renames, unused_name())"""
+    mc = QUICK_MC + [("ids1", 3), ("ids2", 3)] if tier == "quick" else THOROUGH_MC + [("ids1", 4), ("ids2", 4)]
+    _core(out, tier, seed, "C09", mc, mc, (150, 10), (3000, 14))
+
+
+CHECKS["C09"] = check_c09
+LEVEL["C09"] = "model_checking"
 
 # family modules: harness/fam_*.py, each defines PROPS = {"Cxx": (function(out, tier, seed), level)}
 import glob, importlib, os
